@@ -226,6 +226,16 @@ def check_site_separation(rep, rule, by_cache):
                 c1, c2 = _key_constants(k1, l1), _key_constants(k2, l2)
                 if c1 is None or c2 is None:
                     continue  # not literal tuples: undecided here
+
+                def self_describing(k, v):
+                    """positions of the key that hold the very callable the value is computed with"""
+                    return {i for i, e in enumerate(k.elts) if norm(e) == v}
+
+                s1, s2 = self_describing(k1, v1), self_describing(k2, v2)
+                if s1 & s2:
+                    # both keys name, at the same position, what computes their value: equal keys => the same computation
+                    rep.ok(rule, (fi1, n1), f"memo {cache}: keys `{norm(k1)}` and `{norm(k2)}` carry the callable that computes the value")
+                    continue
                 if c1[0] != c2[0] or any(p in c2[1] and c2[1][p] != t for p, t in c1[1].items()):
                     rep.ok(rule, (fi1, n1), f"memo {cache}: keys `{norm(k1)}` and `{norm(k2)}` of two different computations cannot collide")
                     continue
